@@ -480,11 +480,12 @@ func (n *Nodis) ZUnion(keys []string, weights []float64, aggregate string) []*zs
 func (n *Nodis) ZUnionStore(destination string, keys []string, weights []float64, aggregate string) int64 {
 	var v int64
 	_ = n.exec(func(tx *Tx) error {
+		// the operands are read before the destination is locked, as in ZInterStore: the destination may be one of them
+		items := n.ZUnion(keys, weights, aggregate)
 		meta := tx.writeKey(destination, n.newZSet)
 		if !meta.isOk() {
 			return nil
 		}
-		items := n.ZUnion(keys, weights, aggregate)
 		if len(items) == 0 {
 			return nil
 		}
